@@ -49,8 +49,8 @@ class Subset(Harness):
         elif m in ("slice", "slice_off"):
             if choice("rows_given", [True, False]):
                 k = choice("nidx", range(0, self.maxn + 1) if n > 0 else [0])
-                rows = [symx.sym_int_range(f"r{j}", 0, n - 1) for j in range(k)]
-                ctx.assumptions.append("slice/slice_off positions within 0..nrow-1 (negative / out-of-range indices outside the claim)")
+                rows = [symx.sym_int_range(f"r{j}", -n, n - 1) for j in range(k)]
+                ctx.assumptions.append("slice/slice_off positions within -nrow..nrow-1 (Python's negative positions included; out-of-range positions outside the claim)")
                 inp["rows"] = Arr("int64", rows)
             else:
                 inp["rows"] = None
@@ -145,10 +145,10 @@ class Subset(Harness):
             cl.append(("one output row per requested position", T(len(rids) == len(rows))))
             if len(rids) == len(rows):
                 for j, r in enumerate(rids):
-                    cl.append((f"output row {j} is the requested position", rows[j] == BV(r)))
+                    cl.append((f"output row {j} is the requested position", z3.Or(rows[j] == BV(r), rows[j] == BV(r - n))))
         elif m == "slice_off":
             rows = inp["rows"].cells
-            keep_iff(lambda i: z3.And([r != BV(i) for r in rows]) if rows else T(True))
+            keep_iff(lambda i: z3.And([z3.And(r != BV(i), r != BV(i - n)) for r in rows]) if rows else T(True))
         elif m in ("head", "tail"):
             nn = inp["n"]
             want = z3.If(BV(nn) < n, BV(nn), BV(n)) if nn is not None else BV(min(n, 10))
